@@ -21,7 +21,7 @@ def run(seed):
         if r.returncode:
             return seed, {"error": "patch does not apply: " + r.stderr[:200]}
         out = {}
-        env = dict(os.environ, VSTAT_NO_EVIDENCE="1")
+        env = dict(os.environ, VSTAT_NO_EVIDENCE="1", VSTAT_WORKERS=os.environ.get("VSTAT_WORKERS", "4"))
         for prop in built:
             p = subprocess.run(["/venv/bin/python", "-m", "vstat", prop, "--repo", wt], cwd=VERIF, capture_output=True, text=True, env=env)
             rules = sorted({l.split()[0] for l in p.stdout.splitlines() if l.startswith("  C")})
